@@ -121,7 +121,25 @@ def run_property(pid, cfg, tier, known):
         if n.endswith("@known"):
             continue
         v = groups[n][1][0]
-        out["undecided"].append({"name": n, "reason": (v.reason or "unknown") + f" ({v.solver})"})
+        entry = {"name": n, "reason": (v.reason or "unknown") + f" ({v.solver})"}
+        # candidate search (bounded stand-in job 3): a model of the query WITHOUT its quantified hypotheses, turned into
+        # concrete inputs; check.py replays it on the real code and reports it only if it is a legal, violating input
+        fq = n.split("/")[0]
+        fbase = fq.split("#")[0]
+        if fbase in eng.repo.funcs and fq in eng.contracts and v.ob.entry[0] is not None and n not in eng.carveouts:
+            from .concretize import concretize
+            for cand in [x for x in groups[n][1] if x.status == "undecided"][:2]:
+                try:
+                    concrete, cnote = concretize(eng, cand.ob, eng.repo.funcs[fbase], eng.contracts[fq], drop_quantified=True)
+                except Exception as e:
+                    concrete, cnote = None, f"{type(e).__name__}: {e}"
+                if concrete:
+                    entry["candidate"] = {"kind": "obligation", "property": pid, "name": n, "obligation_kind": v.kind, "clause": v.note, "function": fq,
+                                          "source_sha": eng.repo.funcs[fbase].sha, "solver": "z3 (quantifier-free part)", "solver_output": "candidate model",
+                                          "path": " ".join(cand.trace), "concrete": concrete, "concretisation": cnote, "strict_requires": True,
+                                          "note": "candidate found for an undecided obligation; counts only when the native replay confirms a legal violating input"}
+                    break
+        out["undecided"].append(entry)
     for n, msg in eng.problems:
         out["undecided"].append({"name": n, "reason": msg})
     for n in missing:
